@@ -45,7 +45,7 @@ def lib_view(diag):
           'tests_ok': diag.tests_ok}
 
 
-def check_design(sp, r, budget_max, tag, pos, det):
+def check_design(sp, r, budget_max, tag, pos, det, params_changed=False):
   """-> (violations, dontcare)."""
   viol = []
   dc = 0
@@ -95,8 +95,11 @@ def check_design(sp, r, budget_max, tag, pos, det):
   else:
     dc += 1
   # design.score.diag and design.diag report the same numbers
+  # (when the caller has changed its parameter object after the search, the score's diagnostics object of the greedy
+  # search - which is not a copy - legitimately evaluates its lazy tests with the live parameters: only the cached
+  # numbers are compared then; the statement speaks of the diagnostics held by the design)
   same = all(util.deep_eq(v[k], vs[k], 1e-12) for k in ('x', 'y', 'corr', 'required_impact')) and \
-      all(bool(v[k]) == bool(vs[k]) for k in ('aa', 'bb', 'dw', 'corr_test'))
+      (params_changed or all(bool(v[k]) == bool(vs[k]) for k in ('aa', 'bb', 'dw', 'corr_test')))
   if not same:
     viol.append(('C04:%s:score-diag-differs-from-design-diag' % tag, info))
   return viol, dc
@@ -117,11 +120,23 @@ def run(spec):
       cls.append('%s:%s' % (tag, res[0]))
       continue
     recs = res[1]
+    changed = False
+    if spec['params'].get('iroas') == 3 or spec['panel']['perm_seed'] % 2:
+      # flavour: the caller changes its parameter object after the search and only then reads the designs' diagnostics
+      # (lazy tests must still be those of the parameters the search ran with)
+      try:
+        par_live = res[2].parameters
+        par_live.min_corr = 0.999
+        par_live.sig_level = 0.51
+        changed = True
+        cls.append('params-changed-after-search')
+      except Exception:  # pylint: disable=broad-except
+        pass
     most = max(most, len(recs))
     cls.append('%s:%s' % (tag, '0' if not recs else '1' if len(recs) == 1 else '2+'))
     bmax = case.kwargs['budget_range'][1] if (tag == 'exhaustive' and 'budget_range' in case.kwargs) else None
     for pos, r in enumerate(recs):
-      v, d = check_design(sp, r, bmax, tag, pos, det)
+      v, d = check_design(sp, r, bmax, tag, pos, det, changed)
       viol += v
       dc += d
   if sp.n_win < len(sp.dates):
